@@ -111,6 +111,44 @@ class Pass2:
                 elif len(ix) == 2 and ix[0] == '1:':
                     m = re.match(r'^Nout\[:, (\d+), 0\]\.cumsum\(\)$', unparse(s.value))
                     self.gs_cols[ix[1]] = (m.group(1) if m else unparse(s.value), s)
+        # loop form of the same exclusive prefix sums:
+        #   for t in range(Nthread): [for k in range(3):] gstart[t + 1, k] = gstart[t, k] + Nout[t, k, 0]
+        # with gstart allocated by np.zeros (row 0 is then zero) or preceded by gstart[0, :] = 0
+        for s in fn.body:
+            if not (isinstance(s, ast.For) and isinstance(s.target, ast.Name) and isinstance(s.iter, ast.Call) and unparse(s.iter) == 'range(Nthread)'):
+                continue
+            t = s.target.id
+            stmts, kvar = s.body, None
+            if len(stmts) == 1 and isinstance(stmts[0], ast.For) and isinstance(stmts[0].target, ast.Name) and unparse(stmts[0].iter) == 'range(3)':
+                kvar = stmts[0].target.id
+                stmts = stmts[0].body
+            rec = {}
+            okloop = True
+            for b in stmts:
+                m = None
+                if isinstance(b, ast.Assign) and isinstance(b.targets[0], ast.Subscript) and unparse(b.targets[0].value) == 'gstart':
+                    ix = idx(b.targets[0])
+                    if len(ix) == 2 and ix[0].replace(' ', '') in (f'{t}+1', f'1+{t}'):
+                        c = ix[1]
+                        m = re.match(rf'^gstart\[{t}, {re.escape(c)}\] \+ Nout\[{t}, (\w+), 0\]$', unparse(b.value)) or \
+                            re.match(rf'^Nout\[{t}, (\w+), 0\] \+ gstart\[{t}, {re.escape(c)}\]$', unparse(b.value))
+                        if m:
+                            rec[c] = (m.group(1), b)
+                if m is None:
+                    okloop = False
+            if okloop and rec:
+                if kvar is not None and list(rec) == [kvar] and rec[kvar][0] == kvar:
+                    for c in ('0', '1', '2'):
+                        self.gs_cols[c] = (c, rec[kvar][1])
+                elif kvar is None:
+                    for c, v in rec.items():
+                        self.gs_cols[c] = v
+                elif kvar is not None:
+                    # the column loop variable is used inconsistently: record what is summed into what
+                    for c, v in rec.items():
+                        self.gs_cols[c] = v
+        if self.gs_alloc is not None and dotted(self.gs_alloc.value.func) == 'np.zeros' and self.gs_zero is None:
+            self.gs_zero = self.gs_alloc          # zero-initialised: row 0 is zero
         self.nout_alloc = next((s for s in fn.body if isinstance(s, ast.Assign) and unparse(s.targets[0]) == 'Nout'), None)
         self.hstart_def = next((s for s in fn.body if isinstance(s, ast.Assign) and unparse(s.targets[0]) == 'hstart'), None)
         self.keep_alloc = next((s for s in fn.body if isinstance(s, ast.Assign) and unparse(s.targets[0]) == 'keep'), None)
